@@ -202,7 +202,26 @@ def impl(case):
             return {"n": int(round(math.log2(M.shape[0]))), "nz": nz_int(M), "shape": list(M.shape)}
         return guarded(f)
     if op == "ps.ctor":
-        return guarded(lambda: canon(PS(build_arr(case["z"]), build_arr(case["x"]), build_q(case["q"]))))
+        out = guarded(lambda: canon(PS(build_arr(case["z"]), build_arr(case["x"]), build_q(case["q"]))))
+        if "val" in out:
+            # a string built from any accepted array-like is the same VALUE as the string built from plain lists / parsed from its print:
+            # equality (`==`, used by merge-on-insert and by the round-trip statement) must not depend on how it was constructed
+            def eqs():
+                P = PS(build_arr(case["z"]), build_arr(case["x"]), build_q(case["q"]))
+                Q = PS([int(v) for v in P.z], [int(v) for v in P.x], int(P.q))
+                e = {"list": bool(P == Q) and bool(Q == P)}
+                if len(P.z) >= 1:
+                    R = PS.from_string(str(P))
+                    e["parse"] = bool(R == P) and bool(P == R)
+                o_ = PO([WPS(P, 1.0)])
+                o_.add_pauli_string(WPS(Q, 2.0))
+                e["merge"] = len(o_.pstrings) == 1 and complex(o_.pstrings[0].weight) == 3.0
+                return e
+            try:
+                out["_eq"] = eqs()
+            except Exception as e:
+                out["_eq"] = {"raised": f"{type(e).__name__}: {e}"[:120]}
+        return out
     if op == "ps.single":
         return guarded(lambda: canon(PS.from_single_paulis(case["n"], *[(c, i) for c, i in case["args"]], q=case["q"])))
     if op == "ps.setpauli":
@@ -213,7 +232,13 @@ def impl(case):
         return guarded(f)
     if op == "pop.history":
         def f():
-            o = PO([WPS(mk(p), build_w(w)) for p, w in case["init"]])
+            init_list = [WPS(mk(p), build_w(w)) for p, w in case["init"]]
+            o = PO(init_list)
+            if case.get("decoy"):
+                # the caller builds a SECOND operator from the same Python list and keeps using the list itself: neither may reach `o`
+                o2 = PO(init_list)
+                o2.add_pauli_string(WPS(mk(case["decoy"][0]), build_w(case["decoy"][1])))
+                init_list.append(WPS(mk(case["decoy"][0]), 5.0))
             for st in case["steps"]:
                 if st[0] == "add":
                     o.add_pauli_string(WPS(mk(st[1]), build_w(st[2])))
@@ -478,6 +503,12 @@ def oracle_ctor(case, o):
             want = {"z": zs, "x": xs, "q": int(qv) % 4}
             if o["val"] != want:
                 return [("C09:ctor:wrong-string", f"{o['val']} != {want}")]
+        e = o.get("_eq") or {}
+        wrong = [k for k, v in e.items() if v is not True]
+        if wrong:
+            return [(f"C09:ctor:equality-depends-on-construction:{wrong[0]}",
+                     f"PauliString({kinds} {zs}, {xs}, {qv}): {e} (list = equals the string built from lists; parse = from_string(str(P)) == P; "
+                     f"merge = add_pauli_string merges it with the list-built equal string)")]
         return []
     # integer-valued but not a pair of equal-length flat 0/1 sequences: must be rejected
     if is_nested_ints(case["z"]["data"]) and is_nested_ints(case["x"]["data"]) and not str(case["z"].get("dtype")).startswith("float") \
@@ -716,6 +747,8 @@ def gen_history(rng, count, nmax_mat):
     yield {"op": "pop.history", "init": [[X, ["float", 1.0]], [X, ["float", 2.0]]], "steps": [["add", X, ["float", -1.0]], ["prune", 0.0]], "mat": True}
     yield {"op": "pop.history", "init": [[X, ["float", 1.0]], [{"z": [0, 0], "x": [1, 1], "q": 0}, ["float", 2.0]]], "steps": [], "mat": True}
     yield {"op": "pop.history", "init": [[X, ["float", 1.0]]], "steps": [["add", {"z": [0, 0], "x": [1, 1], "q": 0}, ["float", 2.0]]], "mat": True}
+    yield {"op": "pop.history", "init": [[X, ["float", 1.0]], [Y, ["float", -0.5]]], "steps": [["add", X, ["float", 2.0]]], "mat": True, "decoy": [mX, ["float", 4.0]]}
+    yield {"op": "pop.history", "init": [[X, ["float", 1.0]]], "steps": [], "mat": True, "decoy": [Y, ["float", 4.0]]}
     yield {"op": "pop.history", "init": [], "steps": [["add", X, ["float", 0.25]], ["add", Y, ["float", 1.0]], ["prune", 0.5]], "mat": True}
     yield {"op": "pop.history", "init": [], "steps": [["add", X, ["float", 0.5]], ["add", Y, ["complex", 0.0, -0.5]], ["prune", 0.5]], "mat": True}
     yield {"op": "pop.history", "init": [], "steps": [["add", X, ["float", 0.0]], ["add", Y, ["float", 1.0]], ["prune", -1.0]], "mat": True}
@@ -748,7 +781,17 @@ def gen_history(rng, count, nmax_mat):
             steps.append(["prune", 0.0])
         if rng.random() < 0.03:
             steps.insert(rng.randint(0, len(steps)), ["add", rand_ps(rng, n + 1), ["float", 1.0]])   # malformed: other length
-        yield {"op": "pop.history", "init": init, "steps": steps, "mat": n <= nmax_mat}
+        c = {"op": "pop.history", "init": init, "steps": steps, "mat": n <= nmax_mat}
+        if init and rng.random() < 0.5:
+            # a second operator built from the same list, and the list appended to. The decoy string differs from every string of the list:
+            # the constructor copies the LIST, the weighted-string objects themselves are shared by design of the code (merging into one
+            # of them through the second operator would be visible in the first - outside the statement of the property)
+            for _ in range(20):
+                d = rand_ps(rng, n)
+                if all(d != p for p, _ in init):
+                    c["decoy"] = [d, ["float", 0.75]]
+                    break
+        yield c
 
 
 def gen_cases(tier, rng):
